@@ -28,18 +28,7 @@ func checkC11(c *Ctx) {
 		return
 	}
 	fn := r.Accept
-	g := paths.New(c.P, fn, 2)
-	g.Expand = func(callee *ssa.Function, site ssa.CallInstruction) bool {
-		if recvNamed(callee) == "Server" { // the session lookup helper, refusal helpers
-			return true
-		}
-		// plain helper functions of the package, except those that are events of the rules
-		if callee.Signature.Recv() == nil && callee.Pkg != nil && callee.Pkg.Pkg.Path() == pkgService &&
-			callee != r.SockWrite && callee.Name() != "getConnectMessage" && callee.Name() != "getMessageBuffer" && callee.Name() != "writeMessageBuffer" {
-			return true
-		}
-		return false
-	}
+	g := c.acceptGraph()
 	entry := []paths.Node{g.Entry()}
 	pos := c.P.Pos(fn.Pos())
 	isEffect := func(call ssa.CallInstruction) bool {
@@ -147,6 +136,7 @@ func checkC11(c *Ctx) {
 	startM := nodeM(mCallee(r.Start))
 	c.precedes(ruleP5, "accept:CONNACK-before-start", g, sockWrite, startM, Assume{atomConnDecodeErr: false, atomAuthErr: false}, "the CONNACK write precedes start", "start is reachable before the CONNACK was written: another packet can overtake the CONNACK")
 	c.closeOnRefusal(fn)
+	c.authManagerDelegates()
 	c.connectValidation()
 	c.connackConstants()
 	c.headerTypeCheck()
@@ -487,4 +477,92 @@ func (c *Ctx) headerTypeCheck() {
 		}
 	}
 	c.R.Check(found, ruleP8, "header.decode:rejects-foreign-packet-type", c.P.Pos(fn.Pos()), "the received type is compared with the decoder's own type and a mismatch returns an error", "the fixed-header decoder does not reject a packet whose type differs from the decoder's own: any first packet is taken for a CONNECT")
+}
+
+// acceptGraph: the accept function with the Server's own helpers and plain package helpers inlined.
+func (c *Ctx) acceptGraph() *paths.Graph {
+	r := c.Roles()
+	g := paths.New(c.P, r.Accept, 2)
+	g.Expand = func(callee *ssa.Function, site ssa.CallInstruction) bool {
+		if recvNamed(callee) == "Server" { // the session lookup helper, refusal helpers
+			return true
+		}
+		// plain helper functions of the package, except those that are events of the rules
+		if callee.Signature.Recv() == nil && callee.Pkg != nil && callee.Pkg.Pkg.Path() == pkgService &&
+			callee != r.SockWrite && callee.Name() != "getConnectMessage" && callee.Name() != "getMessageBuffer" && callee.Name() != "writeMessageBuffer" {
+			return true
+		}
+		return false
+	}
+	return g
+}
+
+// sessionStoreUntouchedBeforeAuth: the session store is neither read nor written on behalf of a connection
+// whose credentials have not been accepted: a refused CONNECT that names another client's identifier must
+// not replace (or resume) that client's stored session.
+func (c *Ctx) sessionStoreUntouchedBeforeAuth() {
+	r := c.Roles()
+	c.useRules(ruleP11)
+	g := c.acceptGraph()
+	entry := []paths.Node{g.Entry()}
+	pos := c.P.Pos(r.Accept.Pos())
+	sess := nodeM(func(call ssa.CallInstruction) bool {
+		f := call.Common().StaticCallee()
+		if f == nil || f.Pkg == nil || f.Pkg.Pkg.Path() != pkgSessions {
+			return false
+		}
+		rn := recvNamed(f)
+		return rn == "Manager" || rn == "Session"
+	})
+	auth := nodeM(mMethod(pkgAuth, "Manager", "Authenticate"))
+	c.precedes(ruleP11, "accept:authentication-before-session-store", g, auth, sess, nil,
+		"every session-store call is preceded by the authentication",
+		"the session store is used before the credentials were checked: a refused CONNECT carrying another client's identifier replaces or resumes that client's stored session")
+	if p := reach(g, entry, nil, sess, Assume{atomAuthErr: true}); p != nil {
+		c.R.Bad(ruleP11, "accept:no-session-store-after-failed-authentication", pos, "after a failed authentication the session store is still reached", c.witness(g, p)...)
+	} else {
+		c.R.Ok(ruleP11, "accept:no-session-store-after-failed-authentication", pos, "no session-store call is reachable once the authentication failed")
+	}
+}
+
+// authManagerDelegates: a login is accepted only by the configured authenticator, asked about exactly this
+// (identifier, credential) pair: every return of auth.Manager.Authenticate that can be nil lies behind the
+// provider's Authenticate called with the function's own two arguments (no cache or shortcut answers
+// for it).
+func (c *Ctx) authManagerDelegates() {
+	fn := c.P.Func("auth", "Manager", "Authenticate")
+	if fn == nil {
+		c.R.Unresolved("auth.Manager.Authenticate")
+		return
+	}
+	g := paths.New(c.P, fn, 1)
+	provider := func(n paths.Node) bool {
+		call := paths.CallAt(n)
+		if call == nil || n.F != g.Root {
+			return false
+		}
+		cc := call.Common()
+		if !cc.IsInvoke() || cc.Method.Name() != "Authenticate" || len(cc.Args) != 2 {
+			return false
+		}
+		return ir.SeeThrough(cc.Args[0]) == ssa.Value(fn.Params[1]) && ir.SeeThrough(cc.Args[1]) == ssa.Value(fn.Params[2])
+	}
+	mayAccept := func(n paths.Node) bool {
+		ret, ok := n.Instr.(*ssa.Return)
+		if !ok || n.F != g.Root || len(ret.Results) == 0 {
+			return false
+		}
+		switch e := ir.ReturnOperand(ret, len(ret.Results)-1).(type) {
+		case *ssa.MakeInterface:
+			return false
+		case *ssa.Const:
+			return e.IsNil()
+		}
+		return true
+	}
+	if p := g.FindPath([]paths.Node{g.Entry()}, provider, mayAccept); p != nil {
+		c.R.Bad(ruleP6, "auth.Manager.Authenticate:asks-the-provider-about-this-login", c.P.Pos(fn.Pos()), "Authenticate can accept a login without asking the configured authenticator about this identifier and credential (a cached or short-cut answer): a CONNECT that the authenticator would refuse is accepted", c.witness(g, p)...)
+	} else {
+		c.R.Ok(ruleP6, "auth.Manager.Authenticate:asks-the-provider-about-this-login", c.P.Pos(fn.Pos()), "every accepting return lies behind provider.Authenticate(id, cred)")
+	}
 }
